@@ -223,6 +223,22 @@ class ALazy:
     def drive(self, interp, node, cb):
         if self.done:
             return
+        if self.kind == 'callsentinel':
+            # iter(callable, sentinel): call until the result equals the sentinel (resumable: each drive goes on calling)
+            n = 0
+            while True:
+                v = interp.apply(self.fn, [], {}, node)
+                same = v is self.src
+                if not same:
+                    r = interp.compare(ast.Eq(), v, self.src, node)
+                    same = r if r is not None else interp.decide(node, 'iter(callable, sentinel): result equals the sentinel')
+                if same:
+                    self.done = True
+                    return
+                n += 1
+                if n > 4096:
+                    raise AbsRaise('NonTermination', node)
+                cb(v)
         self.done = True
         counter = [0]
 
@@ -349,6 +365,124 @@ def handler_names(h: ast.ExceptHandler):
     return [unparse(h.type)]
 
 
+class ANTClass:
+    """The class made by collections.namedtuple(name, fields)."""
+    def __init__(self, name, fields, defaults=()):
+        self.name, self.fields, self.defaults = name, tuple(fields), tuple(defaults)
+
+    def __repr__(self):
+        return f'<namedtuple {self.name}{self.fields}>'
+
+
+def _nt_parse(interp, call, module):
+    """(name, fields, defaults) of a namedtuple(...) call expression, or None."""
+    if not (isinstance(call, ast.Call) and unparse(call.func).split('.')[-1] == 'namedtuple' and len(call.args) >= 2):
+        return None
+    try:
+        name = interp.f.eval(call.args[0], {}, module)
+        flds = interp.f.eval(call.args[1], {}, module)
+        defaults = ()
+        for kw in call.keywords:
+            if kw.arg == 'defaults':
+                defaults = tuple(interp.f.eval(kw.value, {}, module))
+            elif kw.arg not in ('module',):
+                return None
+    except Unfoldable:
+        return None
+    if isinstance(flds, str):
+        flds = flds.replace(',', ' ').split()
+    if not isinstance(name, str) or not all(isinstance(x, str) for x in flds):
+        return None
+    return name, tuple(flds), defaults
+
+
+def nt_spec(interp, cls):
+    """Field names (and defaults) when class cls derives from a namedtuple(...) made in its class statement."""
+    for k in interp.p.mro(cls):
+        for b in k.node.bases:
+            got = _nt_parse(interp, b, k.module)
+            if got is not None:
+                return got[1], got[2]
+    return None
+
+
+def nt_bind(fields, defaults, args, kwargs, node):
+    if len(args) > len(fields):
+        raise AbsRaise('TypeError', node, implicit=True, msg='too many arguments')
+    vals = dict(zip(fields, args))
+    for k, v in kwargs.items():
+        if k not in fields or k in vals:
+            raise AbsRaise('TypeError', node, implicit=True, msg=f'unexpected or repeated field {k}')
+        vals[k] = v
+    nd = len(defaults)
+    for i, f in enumerate(fields):
+        if f not in vals:
+            j = i - (len(fields) - nd)
+            if j < 0:
+                raise AbsRaise('TypeError', node, implicit=True, msg=f'missing field {f}')
+            vals[f] = defaults[j]
+    out = {f: vals[f] for f in fields}
+    out['__fields__'] = tuple(fields)
+    return out
+
+
+def nt_items(obj):
+    """The tuple items of a namedtuple instance, or None for other objects."""
+    if isinstance(obj, AObj) and '__fields__' in obj.attrs:
+        return [obj.attrs[f] for f in obj.attrs['__fields__']]
+    return None
+
+
+class ASuper:
+    """super() inside a method: attribute lookup continues after the defining class in the MRO of the object."""
+    def __init__(self, defcls, obj):
+        self.defcls, self.obj = defcls, obj
+
+    def __repr__(self):
+        return f'<super of {self.defcls.name}>'
+
+    def lookup(self, interp, name, node):
+        obj = self.obj
+        cls = obj.info if isinstance(obj, ClassRef) else getattr(obj, 'cls', None)
+        if cls is None:
+            raise Unsupported(f'super() on {obj!r}')
+        mro = interp.p.mro(cls)
+        idx = next((i for i, k in enumerate(mro) if k is self.defcls or k.qname == self.defcls.qname), None)
+        if idx is None:
+            raise Unsupported(f'super(): {self.defcls.name} is not in the MRO of {cls.name}')
+        for k in mro[idx + 1:]:
+            fn = k.methods.get(name)
+            if fn is not None:
+                if _is_staticmethod(fn.node):
+                    return FuncRef(fn)
+                if _is_classmethod(fn.node):
+                    return ('bound', ClassRef(cls), fn)
+                if any(isinstance(d, ast.Name) and d.id == 'property' for d in fn.node.decorator_list):
+                    return interp.call_function(fn, [obj], {}, node)
+                return ('bound', obj, fn)
+            v = k.attrs.get(name) if hasattr(k, 'attrs') else None
+            if isinstance(v, ast.Name) and v.id in k.methods:
+                return ('bound', obj, k.methods[v.id])
+            if v is not None:
+                cv = interp.f.eval(v, {}, k.module)
+                if isinstance(cv, FuncRef) and not _is_staticmethod(cv.info.node):
+                    return ('bound', obj, cv.info)
+                return cv
+        # past the classes of the repository: object (or an external base)
+        if any(not _project_base(interp, k) for k in mro):
+            raise Unsupported(f'super().{name} reaches a base class outside the repository')
+        if name in ('__init__', '__init_subclass__'):
+            return ('objectmethod', obj, name)
+        if name in ('__setattr__', '__delattr__', '__getattribute__') and isinstance(obj, AObj):
+            return ('objectmethod', obj, name)
+        raise AbsRaise('AttributeError', node, implicit=True, msg=name)
+
+
+def _project_base(interp, k):
+    """Are all bases of class k classes of the repository (or object)?"""
+    return all(not isinstance(b, str) or b == 'object' for b in k.bases)
+
+
 class AbsInt:
     def __init__(self, folder: Folder, summaries=None, max_depth=30, extra_exc_parents=None):
         self.f = folder
@@ -421,7 +555,11 @@ class AbsInt:
         for d in info.node.decorator_list:
             dn = unparse(d.func) if isinstance(d, ast.Call) else unparse(d)
             if dn.split('.')[-1] not in _SAFE_DECORATORS:
-                raise Unsupported(f'decorator @{dn} on {info.qname} is not modelled (it may cache or alter the function)')
+                # a decorator of the repository's own: fine when running the module body showed that it hands the function
+                # back unchanged (registration decorators)
+                self.f.module_namespace(info.module)
+                if info.qname not in self.f.transparent_decorated:
+                    raise Unsupported(f'decorator @{dn} on {info.qname} is not modelled (it may cache or alter the function)')
         key = (info.qname, id(args[0]) if args else None)
         stack = self.__dict__.setdefault('_callstack', [])
         if stack.count(key) >= 4:
@@ -434,6 +572,10 @@ class AbsInt:
         env = {}
         if closure is not None:
             env.update({k: v for k, v in closure.items() if not k.startswith('__')})
+            nl = _nonlocal_names(fn)
+            if nl:
+                env['__nonlocals__'] = nl
+                env['__closure__'] = closure
         params = [x.arg for x in a.posonlyargs + a.args]
         args = list(args)
         if info.cls is not None and _is_classmethod(fn):
@@ -469,6 +611,9 @@ class AbsInt:
         self.inlined.add(info.qname)
         self.p.consulted.add(info.module.relpath)
         self.depth += 1
+        if info.cls is not None and args:
+            env['__defcls__'] = info.cls
+            env['__self0__'] = args[0]
         gl = _global_names(fn)
         if gl:
             env['__globals__'] = gl
@@ -556,7 +701,10 @@ class AbsInt:
         elif isinstance(st, ast.Return):
             raise _Ret(self.ev(st.value, env, m) if st.value is not None else None)
         elif isinstance(st, ast.Raise):
-            raise AbsRaise(self.exc_name(st, env, m), st)
+            self._raise_attrs = None
+            name = self.exc_name(st, env, m)
+            attrs, self._raise_attrs = self._raise_attrs, None
+            raise AbsRaise(name, st, attrs=attrs)
         elif isinstance(st, ast.Pass):
             pass
         elif isinstance(st, ast.For):
@@ -740,15 +888,34 @@ class AbsInt:
                 self._cm_pending = None
                 self._cm_stack.pop()
             return
+        v = self.ev(item.context_expr, env, m)
+        if isinstance(v, AObj) and v.cls is not None:
+            o1, enter = self.p.lookup_method(v.cls, '__enter__')
+            o2, exit_ = self.p.lookup_method(v.cls, '__exit__')
+            if enter is not None and exit_ is not None:
+                # a context manager class of the program: __enter__, the body, then __exit__ on every way out; an exception
+                # of the body is handed to __exit__ and swallowed only if that returns something true
+                got = self.call_function(enter, [v], {}, item.context_expr)
+                if item.optional_vars is not None:
+                    self.assign(item.optional_vars, got, env, m)
+                try:
+                    self.ex_with(st, i + 1, env, m)
+                except AbsRaise as e:
+                    r = self.call_function(exit_, [v, e.exc, AExcValue(e.exc, getattr(e, 'attrs', None) or {}), Opaque('traceback')], {}, item.context_expr)
+                    if r is None or r is False or (_is_concrete(r) and not r):
+                        raise
+                    if not _is_concrete(r) and not self.truth(r, item.context_expr):
+                        raise
+                    return
+                except (_Ret, _Brk, _Cont, _GenEscape, _NextFound):
+                    self.call_function(exit_, [v, None, None, None], {}, item.context_expr)
+                    raise
+                self.call_function(exit_, [v, None, None, None], {}, item.context_expr)
+                return
         if item.optional_vars is not None:
-            v = self.ev(item.context_expr, env, m)
             self.assign(item.optional_vars, v, env, m)
         else:
             # locks and similar: evaluate for the event log only when it is a scripted double
-            try:
-                v = self.ev(item.context_expr, env, m)
-            except AbsRaise:
-                raise
             if hasattr(v, 'absint_getattr'):
                 log_event('with-enter', v)
                 try:
@@ -762,12 +929,39 @@ class AbsInt:
         if st.exc is None:
             return 'reraise'
         e = st.exc
+        # `raise helper(...)` / `raise err`: what is raised is the value, not the spelling
+        v = None
+        if isinstance(e, ast.Call):
+            try:
+                fv = self.ev(e.func, env, m)
+            except AbsRaise:
+                fv = None
+            if isinstance(fv, FuncRef) or (isinstance(fv, tuple) and fv and fv[0] in ('closure', 'bound')):
+                v = self.ev(e, env, m)
+        elif isinstance(e, ast.Name) and isinstance(env.get(e.id), (AExcValue, tuple)):
+            v = env[e.id]
+        if isinstance(v, AExcValue):
+            self._raise_attrs = dict(v.attrs)
+            return v.exc
+        if isinstance(v, tuple) and len(v) == 2 and v[0] == 'excclass':
+            return v[1]
+        if isinstance(v, AObj) and v.cls is not None:
+            return v.cls.name
         if isinstance(e, ast.Call):
             e = e.func
         return unparse(e)
 
     def assign(self, t, v, env, m):
         if isinstance(t, ast.Name):
+            if t.id in env.get('__nonlocals__', ()):
+                # nonlocal: the binding lives in the frame of the enclosing function (kept alive by the closure)
+                owner = env.get('__closure__')
+                while owner is not None and t.id not in owner and owner.get('__closure__') is not None:
+                    owner = owner.get('__closure__')
+                if owner is not None:
+                    owner[t.id] = v
+                env[t.id] = v
+                return
             if t.id in env.get('__globals__', ()):
                 self.global_store[(m.name, t.id)] = v
                 log_event('global-store', m.name, t.id, v)
@@ -943,6 +1137,8 @@ class AbsInt:
         except Unfoldable:
             if e.id in _BUILTINS:
                 return _BUILTINS[e.id]
+            if e.id in _BUILTIN_EXCEPTIONS:
+                return ('excclass', e.id)
             return Opaque(f'global {e.id}')
 
     def _v_Attribute(self, e, env, m):
@@ -952,6 +1148,10 @@ class AbsInt:
                 return base.attrs[e.attr]
             if e.attr == '__class__' and base.cls is not None:
                 return ClassRef(base.cls)
+            if e.attr == '_fields' and '__fields__' in base.attrs:
+                return tuple(base.attrs['__fields__'])
+            if e.attr in ('_replace', '_asdict') and '__fields__' in base.attrs:
+                return ('ntmethod', base, e.attr)
             if e.attr == '__dict__':
                 view = ADict()
                 view.d = base.attrs
@@ -972,13 +1172,32 @@ class AbsInt:
                 if fn is not None:
                     if any(isinstance(d, ast.Name) and d.id == 'property' for d in fn.node.decorator_list):
                         return self.call_function(fn, [base], {}, e)
+                    if _is_staticmethod(fn.node):
+                        return FuncRef(fn)
+                    if _is_classmethod(fn.node):
+                        return ('bound', ClassRef(base.cls), fn)
                     return ('bound', base, fn)
             raise AbsRaise('AttributeError', e, implicit=True, msg=e.attr)
+        if isinstance(base, ASuper):
+            return base.lookup(self, e.attr, e)
         if isinstance(base, Module):
             try:
                 return self.f.global_value(base, e.attr)
             except Unfoldable:
                 return Opaque(f'{base.name}.{e.attr}')
+        if isinstance(base, ANTClass):
+            if e.attr == '_make':
+                return ('ntmake', base)
+            if e.attr == '_fields':
+                return tuple(base.fields)
+            if e.attr == '__name__':
+                return base.name
+            return Opaque(f'namedtuple class attribute {e.attr}')
+        if isinstance(base, ClassRef) and e.attr in ('_make', '_fields') and self.p.lookup_method(base.info, e.attr)[1] is None \
+                and self.p.class_attr(base.info, e.attr) is None:
+            nts = nt_spec(self, base.info)
+            if nts is not None:
+                return ('ntmake', base) if e.attr == '_make' else tuple(nts[0])
         if isinstance(base, ClassRef) and e.attr == '__name__':
             return base.info.name
         if isinstance(base, AList) and e.attr == '__class__' and getattr(base, 'cls', None) is not None:
@@ -1091,8 +1310,10 @@ class AbsInt:
     def _v_BoolOp(self, e, env, m):
         is_and = isinstance(e.op, ast.And)
         last = None
-        for x in e.values:
+        for i, x in enumerate(e.values):
             last = self.ev(x, env, m)
+            if i == len(e.values) - 1:
+                return last             # the value of the last operand is the result, whatever its truth
             t = self.truth(last, x)
             if is_and and not t:
                 return last if _is_concrete(last) else False
@@ -1310,12 +1531,16 @@ class AbsInt:
             other = b if a is None else a
             if isinstance(other, (AV, LenV, AList, ADict, AObj)) or _is_concrete(other):
                 return isinstance(op, ast.NotEq) if other is not None else isinstance(op, ast.Eq)
-        if isinstance(op, (ast.Is, ast.IsNot)) and (type(a) is object or type(b) is object):
-            # a sentinel made by object(): identity is all there is to it
+        if isinstance(op, (ast.Is, ast.IsNot, ast.Eq, ast.NotEq)) and (type(a) is object or type(b) is object):
+            # a sentinel made by object(): identity is all there is to it (object.__eq__ is identity; lists, tuples, ints,
+            # messages of this package never claim to equal a bare object)
             other = b if type(a) is object else a
             if isinstance(other, Opaque):
                 return None
-            return (a is b) if isinstance(op, ast.Is) else (a is not b)
+            if isinstance(op, (ast.Eq, ast.NotEq)) and isinstance(other, AObj) and other.cls is not None \
+                    and self.p.lookup_method(other.cls, '__eq__')[1] is not None:
+                return None
+            return (a is b) if isinstance(op, (ast.Is, ast.Eq)) else (a is not b)
         if isinstance(op, (ast.Is, ast.IsNot)):
             if a is None or b is None:
                 other = b if a is None else a
@@ -1495,6 +1720,12 @@ class AbsInt:
                     return vals[0]
             return Opaque('dict index')
         al = _as_alist(base)
+        if al is not None and isinstance(idx, LenV):
+            # an index computed from len() of the same sequence: x[len(x) - k] is x[-k]
+            total = self.length_of(al, node)
+            tl = total if isinstance(total, LenV) else LenV(total, ()) if isinstance(total, int) else None
+            if tl is not None and sorted(tl.vars) == sorted(idx.vars) and tl.const - idx.const >= 1:
+                idx = -(tl.const - idx.const)
         if al is not None and isinstance(idx, int):
             items = al.items
             if not al.has_var():
@@ -1530,6 +1761,14 @@ class AbsInt:
                     raise AbsRaise('IndexError', node, implicit=True)
                 return AV.of_sym(vars_[0].sym)
             return Opaque('index into symbolic sequence')
+        if al is not None and isinstance(idx, AV) and not idx.is_top and not al.has_var():
+            # a table indexed by a value known only as a range: fine when the table is constant over that range
+            lo, hi = idx.interval()
+            if 0 <= lo <= hi < len(al.items):
+                vals = al.items[lo:hi + 1]
+                if all(v is vals[0] or (type(v) is type(vals[0]) and (_is_concrete(v) or isinstance(v, (FuncRef, ClassRef))) and v == vals[0]) for v in vals):
+                    return vals[0]
+            return Opaque('table indexed by a symbolic value')
         if isinstance(base, str) and isinstance(idx, int):
             try:
                 return base[idx]
@@ -1668,6 +1907,8 @@ class AbsInt:
     def iterate(self, it, node, keep_vars=False):
         if isinstance(it, AGen):
             return self.run_generator(it)
+        if nt_items(it) is not None and (it.cls is None or self.p.lookup_method(it.cls, '__iter__')[1] is None):
+            return nt_items(it)
         if isinstance(it, ALazy):
             out = []
             it.drive(self, node, out.append)
@@ -1797,6 +2038,12 @@ class AbsInt:
             return self.builtin_summaries[e.func.id](self, args, kwargs, e)
         if isinstance(e.func, ast.Name) and e.func.id == 'isinstance' and 'isinstance' not in env and len(args) == 2:
             return self.isinstance_(args, e)
+        if isinstance(e.func, ast.Name) and e.func.id == 'super' and 'super' not in env and not kwargs:
+            if not args and env.get('__defcls__') is not None and '__self0__' in env:
+                return ASuper(env['__defcls__'], env['__self0__'])
+            if len(args) == 2 and isinstance(args[0], ClassRef):
+                return ASuper(args[0].info, args[1])
+            raise Unsupported(f'super() outside a method at line {e.lineno}')
         if isinstance(e.func, ast.Name) and e.func.id == 'hasattr' and 'hasattr' not in env and len(args) == 2 \
                 and hasattr(args[0], 'absint_hasattr') and isinstance(args[1], str):
             return args[0].absint_hasattr(args[1])
@@ -1866,6 +2113,11 @@ class AbsInt:
             return self.call_function(f[2], [f[1]] + list(args), dict(kwargs), node)
         if isinstance(f, tuple) and len(f) == 3 and f[0] == 'attr' and isinstance(f[2], str):
             base, name = f[1], f[2]
+            if base is dict and name == 'fromkeys' and 1 <= len(args) <= 2 and not kwargs:
+                keys = self.iterate(args[0], node, keep_vars=True)
+                if all(_hashable_const(k) for k in keys):
+                    return ADict({k: (args[1] if len(args) > 1 else None) for k in keys})
+                return Opaque('dict.fromkeys of symbolic keys')
             if _is_concrete(base) and all(_is_concrete(a) for a in args) and not kwargs and (
                     isinstance(base, (frozenset, tuple, str, int, float, bytes)) or name in ('__contains__', 'get', 'count', 'index', '__getitem__')):
                 try:
@@ -1877,8 +2129,47 @@ class AbsInt:
             if name == '__contains__' and len(args) == 1:
                 r = self.compare(ast.In(), args[0], base, node)
                 return r if r is not None else self.decide(node, 'membership')
-            if isinstance(base, (AList, ADict)):
+            if isinstance(base, (AList, ADict, str)) or (isinstance(base, tuple) and base and base[0] == 'repattern') or hasattr(base, 'segs'):
                 return self.method(base, name, list(args), dict(kwargs), node)
+        if isinstance(f, tuple) and len(f) == 3 and f[0] == 'ntmethod':
+            obj, name = f[1], f[2]
+            flds = obj.attrs['__fields__']
+            if name == '_asdict' and not args and not kwargs:
+                return ADict({k: obj.attrs[k] for k in flds})
+            if name == '_replace' and not args and set(kwargs) <= set(flds):
+                new = AObj(obj.cls, dict(obj.attrs), name=obj.name)
+                new.attrs.update(kwargs)
+                return new
+            raise AbsRaise('TypeError', node, implicit=True)
+        if isinstance(f, tuple) and len(f) == 2 and f[0] == 'excclass':
+            return AExcValue(f[1], {'args': AList(list(args), 'tuple')})
+        if isinstance(f, ANTClass):
+            return AObj(None, nt_bind(f.fields, f.defaults, list(args), dict(kwargs), node), name=f.name)
+        if isinstance(f, tuple) and len(f) == 2 and f[0] == 'ntmake':
+            items = self.iterate(args[0], node, keep_vars=True) if len(args) == 1 else None
+            if items is None:
+                raise AbsRaise('TypeError', node, implicit=True)
+            return self.apply(f[1], items, {}, node)
+        if isinstance(f, tuple) and len(f) == 3 and f[0] == 'objectmethod':
+            obj, name = f[1], f[2]
+            if name in ('__init__', '__init_subclass__'):
+                if args or kwargs:
+                    raise AbsRaise('TypeError', node, implicit=True, msg='object.__init__() takes exactly one argument')
+                return None
+            if name == '__setattr__' and len(args) == 2 and isinstance(args[0], str):
+                obj.attrs[args[0]] = args[1]
+                obj.stores.append((args[0], args[1], node))
+                log_event('store', obj, args[0], args[1])
+                return None
+            if name == '__delattr__' and len(args) == 1 and isinstance(args[0], str):
+                if args[0] not in obj.attrs:
+                    raise AbsRaise('AttributeError', node, implicit=True)
+                del obj.attrs[args[0]]
+                log_event('store', obj, args[0], None)
+                return None
+            if name == '__getattribute__' and len(args) == 1 and isinstance(args[0], str) and args[0] in obj.attrs:
+                return obj.attrs[args[0]]
+            raise Unsupported(f'object.{name} with {args!r}')
         if isinstance(f, tuple) and len(f) == 3 and f[0] == 'structmethod':
             return f[1].call(self, f[2], list(args), dict(kwargs), node)
         if isinstance(f, tuple) and len(f) == 3 and f[0] == 'mockmethod':
@@ -1891,6 +2182,12 @@ class AbsInt:
                 return self.summaries[key](self, args, kwargs, node)
             obj = AObj(f.info, {}, name=f.info.name)
             o, init = self.p.lookup_method(f.info, '__init__')
+            nts = nt_spec(self, f.info) if init is None else None
+            if nts is not None:
+                if self.p.lookup_method(f.info, '__new__')[1] is not None:
+                    raise Unsupported(f'namedtuple subclass {f.info.name} with its own __new__')
+                obj.attrs.update(nt_bind(nts[0], nts[1], list(args), dict(kwargs), node))
+                return obj
             if init is not None:
                 self.call_function(init, [obj] + list(args), dict(kwargs), node)
             elif args or kwargs:
@@ -1906,6 +2203,13 @@ class AbsInt:
                 for part in self.iterate(args[0], node, keep_vars=True):
                     out.extend(self.iterate(part, node, keep_vars=True))
                 return AList(out, 'list')
+            if key in ('itertools.product', 'product') and set(kwargs) <= {'repeat'} and isinstance(kwargs.get('repeat', 1), int):
+                import itertools as _it
+                cols = [self.iterate(a, node) for a in args] * kwargs.get('repeat', 1)
+                return AList([AList(list(t), 'tuple') if not all(_is_concrete(x) for x in t) else tuple(t) for t in _it.product(*cols)], 'list')
+            if key in ('itertools.starmap', 'starmap') and len(args) == 2:
+                return AList([self.apply(args[0], self.iterate(t, node, keep_vars=True), {}, node)
+                              for t in self.iterate(args[1], node, keep_vars=True)], 'list')
             if key in ('itertools.chain', 'chain'):
                 out = []
                 for part in args:
@@ -1913,6 +2217,17 @@ class AbsInt:
                 return AList(out, 'list')
             if key == 'struct.Struct' and len(args) == 1 and isinstance(args[0], str):
                 return AStruct(args[0])
+            if key in ('collections.namedtuple', 'namedtuple') and len(args) >= 2 and isinstance(args[0], str):
+                flds = args[1]
+                if isinstance(flds, str):
+                    flds = flds.replace(',', ' ').split()
+                else:
+                    flds = self.iterate(flds, node)
+                if all(isinstance(x, str) for x in flds) and set(kwargs) <= {'defaults', 'module'}:
+                    dfl = tuple(self.iterate(kwargs['defaults'], node)) if kwargs.get('defaults') is not None else ()
+                    return ANTClass(args[0], flds, dfl)
+            if key == 're.compile' and args and isinstance(args[0], str) and not kwargs and (len(args) == 1 or args[1] == 0):
+                return ('repattern', args[0], 0)
             if key in ('itertools.filterfalse', 'filterfalse') and len(args) == 2:
                 return ALazy('filterfalse', args[0], args[1])
             if key in ('itertools.repeat', 'repeat') and len(args) == 2 and isinstance(args[1], int):
@@ -1953,6 +2268,8 @@ class AbsInt:
             return ALazy('filter', args[0], args[1])
         if f is enumerate and args and not _is_concrete(args[0]):
             return ALazy('enumerate', kwargs.get('start', args[1] if len(args) > 1 else 0), args[0])
+        if f is iter and len(args) == 2:
+            return ALazy('callsentinel', args[0], args[1])
         if f is iter and len(args) == 1:
             src = args[0]
             if isinstance(src, (AGen, ALazy)):
@@ -2244,6 +2561,8 @@ class AbsInt:
     def length_of(self, v, node=None):
         if hasattr(v, 'absint_len'):
             return v.absint_len()
+        if nt_items(v) is not None and (v.cls is None or self.p.lookup_method(v.cls, '__len__')[1] is None):
+            return len(nt_items(v))
         if isinstance(v, AList) and v.kind == 'deque':
             log_event('deque', 'test', v, node)
         if isinstance(v, AList) and v.kind == 'iterator':
@@ -2282,6 +2601,12 @@ class AbsInt:
     def method(self, base, name, args, kwargs, node):
         if isinstance(base, AStruct):
             return base.call(self, name, list(args), dict(kwargs), node)
+        if isinstance(base, tuple) and len(base) == 3 and base[0] == 'repattern':
+            # a compiled regular expression: p.sub(repl, text) is re.sub(pattern, repl, text)
+            summ = self.summaries.get(f're.{name}')
+            if summ is not None and base[2] in (0, None):
+                return summ(self, [base[1]] + list(args), dict(kwargs), node)
+            return Opaque(f'compiled pattern .{name}')
         if isinstance(base, AList) and base.kind == 'deque':
             log_event('deque', name, base, node)
         for hook in self.method_hooks:
@@ -2476,9 +2801,30 @@ class LenV:
 _NO = object()
 
 
+import builtins as _bi
+_BUILTIN_EXCEPTIONS = frozenset(n for n in dir(_bi) if isinstance(getattr(_bi, n), type) and issubclass(getattr(_bi, n), BaseException))
 _SAFE_DECORATORS = {'property', 'classmethod', 'staticmethod', 'contextmanager', 'setter', 'deleter', 'getter', 'abstractmethod', 'wraps'}
 _gen_cache = {}
 _glob_cache = {}
+
+
+_nonlocal_cache = {}
+
+
+def _nonlocal_names(fn):
+    k = id(fn)
+    if k not in _nonlocal_cache:
+        names = set()
+        todo = list(fn.body)
+        while todo:
+            n = todo.pop()
+            if isinstance(n, ast.Nonlocal):
+                names.update(n.names)
+            if isinstance(n, (ast.FunctionDef, ast.AsyncFunctionDef, ast.Lambda, ast.ClassDef)):
+                continue
+            todo.extend(ast.iter_child_nodes(n))
+        _nonlocal_cache[k] = frozenset(names)
+    return _nonlocal_cache[k]
 
 
 def _global_names(fn):
@@ -2553,6 +2899,8 @@ def _as_alist(v):
         return AList(list(v), 'tuple' if isinstance(v, tuple) else 'list')
     if isinstance(v, SeqVar):
         return AList([v])
+    if isinstance(v, AObj) and '__fields__' in v.attrs and (v.cls is None or '__getitem__' not in v.cls.methods):
+        return AList(nt_items(v), 'tuple')      # a namedtuple instance indexes, slices and unpacks like the tuple it is
     return None
 
 
@@ -2603,30 +2951,173 @@ def _cmp_len(op, lv: LenV, n):
     return _cmp_interval(op, lo - n, hi - n)
 
 
-def concretize(v):
-    """Abstract value -> plain Python value where it is fully known (for folded tables); other values stay abstract."""
+def concretize(v, memo=None):
+    """Abstract value -> plain Python value where it is fully known (for folded tables); other values stay abstract.
+    With a memo, one abstract object becomes one concrete object however often it is reached (tables share their rows)."""
+    if memo is not None and id(v) in memo:
+        return memo[id(v)][1]
+    r = _concretize(v, memo)
+    if memo is not None and isinstance(v, (ADict, AList, dict, list)):
+        memo[id(v)] = (v, r)
+    return r
+
+
+def _concretize(v, memo):
     if isinstance(v, AV) and v.is_const:
         return v.const
     if isinstance(v, (dict, list, tuple, set, frozenset)) and _is_concrete(v):
         return v                    # already a plain value: keep the very object (tables share their rows)
     if isinstance(v, ADict):
         try:
-            return {concretize(k): concretize(x) for k, x in v.d.items()}
+            return {concretize(k, memo): concretize(x, memo) for k, x in v.d.items()}
         except TypeError:
             return v
     if isinstance(v, AList) and not v.has_var() and v.kind in ('list', 'tuple', 'set', 'frozenset'):
-        items = [concretize(x) for x in v.items]
+        items = [concretize(x, memo) for x in v.items]
         try:
             return {'list': list, 'tuple': tuple, 'set': set, 'frozenset': frozenset}[v.kind](items)
         except TypeError:
             return v
     if isinstance(v, list):
-        return [concretize(x) for x in v]
-    if isinstance(v, tuple) and not (v and v[0] in ('closure', 'bound', 'lambda', 'attrgetter', 'itemgetter', 'attr', 'mockmethod', 'signed')):
-        return tuple(concretize(x) for x in v)
+        return [concretize(x, memo) for x in v]
+    if isinstance(v, tuple) and not (v and v[0] in ('closure', 'bound', 'lambda', 'attrgetter', 'itemgetter', 'attr', 'mockmethod', 'signed', 'repattern', 'objectmethod', 'ntmake', 'ntmethod', 'excclass')):
+        return tuple(concretize(x, memo) for x in v)
     if isinstance(v, dict):
-        return {k: concretize(x) for k, x in v.items()}
+        return {k: concretize(x, memo) for k, x in v.items()}
     return v
+
+
+def _unsafe_decorators(node):
+    out = []
+    for d in node.decorator_list:
+        dn = unparse(d.func) if isinstance(d, ast.Call) else unparse(d)
+        if dn.split('.')[-1] not in _SAFE_DECORATORS:
+            out.append(d)
+    return out
+
+
+def module_is_effectful(m):
+    """Does importing this module do more than bind names to the values of expressions?  (Statements run for their effect:
+    calls, loops, item assignments, decorators that are not the well-known transparent ones.)  Such a module's globals
+    are what is left after the whole body has run, not what the last assignment to each name says."""
+    cached = getattr(m, '_effectful', None)
+    if cached is not None:
+        return cached
+
+    def main_guard(st):
+        return isinstance(st, ast.If) and isinstance(st.test, ast.Compare) and isinstance(st.test.left, ast.Name) and st.test.left.id == '__name__'
+    eff = False
+    for st in m.tree.body:
+        if isinstance(st, ast.Expr) and not isinstance(st.value, ast.Constant):
+            eff = True
+        elif isinstance(st, (ast.For, ast.While, ast.With, ast.AugAssign, ast.Delete)):
+            eff = True
+        elif isinstance(st, (ast.If, ast.Try)) and not main_guard(st):
+            eff = True
+        elif isinstance(st, ast.Assign) and any(not isinstance(t, (ast.Name, ast.Tuple, ast.List)) for t in st.targets):
+            eff = True
+        elif isinstance(st, (ast.FunctionDef, ast.AsyncFunctionDef)) and _unsafe_decorators(st):
+            eff = True
+        elif isinstance(st, ast.ClassDef):
+            if _unsafe_decorators(st):
+                eff = True
+            for b in st.body:
+                if isinstance(b, (ast.FunctionDef, ast.AsyncFunctionDef)) and _unsafe_decorators(b):
+                    eff = True
+    m._effectful = eff
+    return eff
+
+
+class _ModuleEnv(dict):
+    """The namespace of a module while its body runs: every binding is also visible to the functions called meanwhile."""
+    def __init__(self, ai, m):
+        super().__init__()
+        self._ai, self._m = ai, m
+
+    def __setitem__(self, k, v):
+        super().__setitem__(k, v)
+        self._ai.global_store[(self._m.name, k)] = v
+
+    def pop(self, k, *d):
+        self._ai.global_store.pop((self._m.name, k), None)
+        return super().pop(k, *d)
+
+
+def execute_module(folder, m):
+    """Run the top-level statements of a module in order with the abstract interpreter and return its final namespace
+    (name -> value), or None when that cannot be done on one path.  Used for modules whose import has effects (tables
+    filled by registration decorators, loops or calls)."""
+    from .model import FuncInfo as _FI
+    ai = AbsInt(folder)
+    transparent = set()
+
+    def decorate(st, val, env, info):
+        for d in reversed(st.decorator_list):
+            dn = unparse(d.func) if isinstance(d, ast.Call) else unparse(d)
+            if dn.split('.')[-1] in _SAFE_DECORATORS:
+                continue
+            dv = ai.ev(d, env, m)
+            val = ai.apply(dv, [val], {}, d)
+        if _unsafe_decorators(st):
+            same = (isinstance(val, FuncRef) and info is not None and val.info == info) or \
+                (isinstance(val, tuple) and len(val) == 3 and val[0] == 'closure' and info is not None and val[1] == info) or \
+                (isinstance(val, ClassRef) and info is not None and val.info is info)
+            if same and info is not None:
+                transparent.add(info.qname)
+        return val
+
+    def run():
+        env = _ModuleEnv(ai, m)
+        for st in m.tree.body:
+            ai.steps += 1
+            if isinstance(st, (ast.Import, ast.ImportFrom)):
+                continue                        # imported names resolve on demand
+            if isinstance(st, ast.If) and isinstance(st.test, ast.Compare) and isinstance(st.test.left, ast.Name) and st.test.left.id == '__name__':
+                continue
+            if isinstance(st, (ast.FunctionDef, ast.AsyncFunctionDef)):
+                info = m.functions.get(st.name)
+                if info is None or info.node is not st:
+                    info = _FI(st.name, m, st)
+                    val = ('closure', info, env)
+                else:
+                    val = FuncRef(info)
+                env[st.name] = decorate(st, val, env, info)
+            elif isinstance(st, ast.ClassDef):
+                cinfo = m.classes.get(st.name)
+                if cinfo is None or cinfo.node is not st:
+                    raise Unsupported(f'class {st.name} is defined more than once')
+                for b in st.body:
+                    if isinstance(b, (ast.FunctionDef, ast.AsyncFunctionDef)) and _unsafe_decorators(b):
+                        finfo = cinfo.methods.get(b.name)
+                        if finfo is None or finfo.node is not b:
+                            raise Unsupported(f'decorated method {st.name}.{b.name} cannot be resolved')
+                        got = decorate(b, FuncRef(finfo), env, finfo)
+                        if not (isinstance(got, FuncRef) and got.info == finfo):
+                            raise Unsupported(f'decorator replaces method {st.name}.{b.name}')
+                env[st.name] = decorate(st, ClassRef(cinfo), env, cinfo)
+            else:
+                ai.ex(st, env, m)
+        return env
+    saved = list(EVENT_LOG)
+    try:
+        outs = ai.explore(run)
+    except (AnalysisError, RecursionError):
+        return None
+    finally:
+        EVENT_LOG[:] = saved
+    if len(outs) != 1 or outs[0].kind != 'return':
+        return None
+    ns = {}
+    memo = {}
+    for k, v in outs[0].value.items():
+        if k.startswith('__') and k.endswith('__') and k != '__all__':
+            continue
+        c = concretize(v, memo)
+        if isinstance(c, Opaque):
+            continue
+        ns[k] = c
+    folder.transparent_decorated |= transparent
+    return ns
 
 
 def install_fold_fallback(folder):
@@ -2649,3 +3140,4 @@ def install_fold_fallback(folder):
             raise Unfoldable(f'module level value is {v!r}')
         return v
     folder.fallback = fallback
+    folder.module_exec = lambda m: execute_module(folder, m)
